@@ -26,7 +26,7 @@ RULE = ("each case = 3..20 Hypothesis-drawn points (uniform, coordinate poles, 0
         "(uniform, coordinate poles, seam, and neighbourhoods 1e-10..1e-1 deg -- and the exact float64 position -- "
         "of the poles of source and target system); euler family: 6 selectors x {J2000,B1950} through the named "
         "wrappers and euler(); chains ec2gal/gal2ec against the two-step route; eq2sdss/sdss2eq; eq2xyz/xyz2eq in "
-        "deg and rad with and without stomp; rotate with Euler angles uniform in [-360,360] and special values; "
+        "deg and rad with and without stomp; rotate with Euler angles uniform in [-360,360], one in four in [-2000,2000] (several turns), and special values; "
         "shiftlon/shiftra with shift None, +-U(0,1000), multiples of 360, exact complements of the longitude, "
         "wrap True/False; scalar and array inputs. Non-trivial: a point within 1e-2 deg of a pole of the source or "
         "target system, or lon in {0,360}, or a B1950 selector, or a chain (shift: an exact complement / multiple "
@@ -465,8 +465,9 @@ def check_xyz2eq(case, ctx):
 # --------------------------------------------------------------------------------------------
 # rotate
 # --------------------------------------------------------------------------------------------
-ANGLE = st.one_of(st.floats(-360.0, 360.0), st.sampled_from([0.0, 90.0, -90.0, 180.0, -180.0, 360.0, -360.0, 45.0,
-                                                             1e-9, -1e-9, 62.87175, 23.4392911]))
+ANGLE = st.one_of(st.floats(-360.0, 360.0), st.floats(-360.0, 360.0), st.floats(-2000.0, 2000.0),
+                  st.sampled_from([0.0, 90.0, -90.0, 180.0, -180.0, 360.0, -360.0, 45.0, 1e-9, -1e-9, 62.87175,
+                                   23.4392911, 540.0, 720.0, -720.0, 900.0, -900.0, 1080.0]))
 
 
 @st.composite
@@ -673,6 +674,10 @@ def classify_rotate(case):
     m = rotate_matrix(phi, theta, psi)
     lon, lat = _points(case, system_poles(m))
     labs = ["mode:" + case["mode"]] + _common_labels(lon, lat)
+    if max(abs(a) for a in case["angles"]) > 540.0:
+        labs.append("euler-angle-beyond-540")
+    elif max(abs(a) for a in case["angles"]) > 360.0:
+        labs.append("euler-angle-beyond-360")
     _, rlat = apply_matrix(m, lon, lat)
     rlat = rlat.astype("f8")
     if np.any(np.abs(rlat) > 90 - 1e-2):
